@@ -24,6 +24,8 @@ class Lock:
         self.f.close()
 
 
+NONTERMINATION_IS_A_VIOLATION = {"C15", "C18", "C19"}
+
 def sh(cmd, cwd=None, timeout=None, stdin=None, stdout=subprocess.PIPE):
     return subprocess.run(cmd, cwd=cwd, env=ENV, stdin=stdin, stdout=stdout, stderr=subprocess.STDOUT,
                           text=True, timeout=timeout)
@@ -219,11 +221,24 @@ def main(argv):
             prof = cfg.get("cargo_profile") or "release"
             if gen and gen[0].startswith("@"):
                 prof, gen = gen[0][1:], gen[1:]
-            with open(ops_path, "w") as f:
-                r = subprocess.run([os.path.join(HARNESS, "target", prof, "verif-harness")] + gen +
-                                   ["--tier", tier, "--seed", str(run_seed), "--stats", stats_path],
-                                   stdout=f, stderr=subprocess.PIPE, text=True, env=ENV,
-                                   timeout=cfg.get("timeout", 7200))
+            # a stream that does not end is a finding, not a reason to wait: the quick streams take seconds, the thorough ones minutes
+            h_timeout = int(os.environ.get("VERIF_HARNESS_TIMEOUT") or cfg.get("timeout", 600 if tier == "quick" else 7200))
+            try:
+                with open(ops_path, "w") as f:
+                    r = subprocess.run([os.path.join(HARNESS, "target", prof, "verif-harness")] + gen +
+                                       ["--tier", tier, "--seed", str(run_seed), "--stats", stats_path],
+                                       stdout=f, stderr=subprocess.PIPE, text=True, env=ENV,
+                                       timeout=h_timeout)
+            except subprocess.TimeoutExpired:
+                tail = [l.rstrip("\n")[:600] for l in open(ops_path, errors="replace").readlines()[-40:]]
+                what = "harness %s (seed %d) did not finish within %d s: the implementation does not return from the operation that follows the last lines of the stream" % (gen, run_seed, h_timeout)
+                if pid in NONTERMINATION_IS_A_VIOLATION:
+                    # the statement itself says the call returns (C15: time in proportion to the input; C18: terminates; C19: no ceremony deadlocks)
+                    spec_fail.append({"clause": "fail:implementation-did-not-return", "op": "the operation after the last line below", "impl": "no answer within %d s" % h_timeout, "case": tail})
+                    n_spec_eval += 1
+                else:
+                    broken.append({"kind": "harness-timeout", "what": what + "; last lines: " + " | ".join(tail[-3:])})
+                continue
             if r.returncode != 0:
                 broken.append({"kind": "harness-broken", "what": "harness %s exited %d: %s" % (gen, r.returncode, r.stderr[-400:])})
                 continue
